@@ -40,6 +40,8 @@ def pageOf (p : Nat) (a : Addr) : Nat × Nat := (a.1, a.2 / p)
 /-- buffers lie inside their regions -/
 def WF (m : Mem) (segs : List Seg) : Prop := ∀ s ∈ segs, s.off + s.len ≤ (m.get s.region).length
 
+instance (m : Mem) (segs : List Seg) : Decidable (WF m segs) := by unfold WF; infer_instance
+
 /-! ### the specification: a flat list and a cursor -/
 
 structure Spec (α : Type) where
